@@ -3,6 +3,8 @@ package main
 import (
 	"fmt"
 	"strconv"
+
+	sql "github.com/metrico/qryn/reader/utils/sql_select"
 	"strings"
 	"time"
 
@@ -14,7 +16,7 @@ import (
 
 type tqAttrRow struct {
 	Date, Key, Val, Trace, Span string
-	Ts, Dur                    int64
+	Ts, Dur                     int64
 }
 
 func (a tqAttrRow) ser() string {
@@ -24,6 +26,53 @@ func (a tqAttrRow) ser() string {
 type tqVocab struct {
 	keys, strs, nums []string
 	durs             []int64
+	terms            []tqTermInfo
+}
+
+// tqTermInfo: what a generated index row needs to witness (or just miss) one condition of the query
+type tqTermInfo struct {
+	key, op string
+	str     *string
+	num     *float64
+	dur     *int64
+}
+
+func fmtNum(f float64) string { return strconv.FormatFloat(f, 'f', -1, 64) }
+
+// witness returns a value (or a duration) that satisfies the condition under the driver's oracles
+// (regular expressions match when the pattern text occurs in the value)
+func (t tqTermInfo) witness(r *h.Rng) (val string, dur int64, isDur bool) {
+	switch {
+	case t.dur != nil:
+		d := *t.dur
+		switch t.op {
+		case ">", "!=":
+			d++
+		case "<":
+			d--
+		}
+		if d < 0 {
+			d = 0
+		}
+		return "", d, true
+	case t.num != nil:
+		f := *t.num
+		switch t.op {
+		case ">", "!=":
+			f += 1
+		case "<":
+			f -= 0.5
+		}
+		return fmtNum(f), 0, false
+	case t.str != nil:
+		switch t.op {
+		case "=", "=~":
+			return *t.str, 0, false
+		default:
+			return "zzz", 0, false
+		}
+	}
+	return "zzz", 0, false
 }
 
 func stripAttrPrefix(l string) string {
@@ -44,20 +93,26 @@ func collectVocab(s *traceql_parser.TraceQLScript) tqVocab {
 		}
 		if e.Head != nil {
 			v.keys = append(v.keys, stripAttrPrefix(e.Head.Label))
+			ti := tqTermInfo{key: stripAttrPrefix(e.Head.Label), op: e.Head.Op}
 			switch {
 			case e.Head.Val.StrVal != nil:
 				if u, err := e.Head.Val.StrVal.Unquote(); err == nil {
 					v.strs = append(v.strs, u, u+"x")
+					ti.str = &u
 				}
 			case e.Head.Val.FVal != "":
 				if f, err := strconv.ParseFloat(e.Head.Val.FVal, 64); err == nil {
 					v.nums = append(v.nums, e.Head.Val.FVal, strconv.FormatFloat(f+1, 'f', -1, 64), strconv.FormatFloat(f-0.5, 'f', -1, 64))
+					ti.num = &f
 				}
 			case e.Head.Val.TimeVal != "":
 				if d, err := time.ParseDuration(e.Head.Val.TimeVal); err == nil {
 					v.durs = append(v.durs, d.Nanoseconds(), d.Nanoseconds()+1, d.Nanoseconds()-1)
+					ns := d.Nanoseconds()
+					ti.dur = &ns
 				}
 			}
+			v.terms = append(v.terms, ti)
 		}
 		walk(e.ComplexHead)
 		walk(e.Tail)
@@ -99,7 +154,23 @@ func genTraceDb(r *h.Rng, c tqctx, v tqVocab) []tqAttrRow {
 			if dur < 0 {
 				dur = 0
 			}
-			nAttrs := r.Range(1, 4)
+			// rows that witness some of the query's conditions for this span
+			var witnessed []tqAttrRow
+			for _, ti := range v.terms {
+				if !r.Chance(55) {
+					continue
+				}
+				val, d, isDur := ti.witness(r)
+				if isDur {
+					dur = d
+					continue
+				}
+				witnessed = append(witnessed, tqAttrRow{Key: ti.key, Val: val})
+			}
+			for _, w := range witnessed {
+				rows = append(rows, tqAttrRow{Date: date, Key: w.Key, Val: w.Val, Trace: fmt.Sprintf("t%d", t), Span: fmt.Sprintf("s%d", s), Ts: ts, Dur: dur})
+			}
+			nAttrs := r.Range(1, 3)
 			for a := 0; a < nAttrs; a++ {
 				val := h.Pick(r, v.strs)
 				if r.Chance(45) {
@@ -162,25 +233,45 @@ func scriptFeature(s *traceql_parser.TraceQLScript) string {
 // c11Sem: the semantic oracle — Sql.SemG of the model's statement (byte-equal to the real one: checked here
 // again) against TraceQL.Sem on small databases
 func c11Sem(r *h.Rng, res *h.Result, n int, maxSel int, replay *tqReplay) error {
-	res.Stream("sem: real SQL = model SQL (bytes), then Sql.SemG(model plan) vs TraceQL.Sem on generated trace databases (driver op c11eval)")
-	var ops, tieOps, tieImpl []string
+	res.Stream("sem: the REAL index_grouped select (Go object tree read by reflection, re-rendered by the model renderer to the real bytes) evaluated by Sql.SemG vs TraceQL.Sem on generated trace databases (driver op c11evalreal); the model plan likewise (c11eval)")
+	var ops, realOps, tieOps, tieImpl []string
 	var cases, tieCases []any
 	var feats []string
+	featOverride := ""
 	add := func(query string, c tqctx, rows []tqAttrRow) bool {
-		texts, script, err := implTraceSQL(query, c, 1)
+		sel, text, script, err := implTraceSel(query, c)
 		if err != nil || script == nil {
 			return false
 		}
+		texts := []string{text}
 		ser, serr := serTraceQL(script)
 		if serr != nil {
 			return false
 		}
+		if script.Head.AttrSelector == nil {
+			return false // `{}`: outside the semantic fragment
+		}
 		if rows == nil {
 			rows = genTraceDb(r, c, collectVocab(script))
 		}
+		realOp := ""
+		if ig := indexGroupedOf(sel); ig != nil {
+			ast, aerr := serRealSelect(ig)
+			igText, terr := ig.String(sql.DefaultCtx())
+			if aerr == nil && terr == nil {
+				realOp = "c11evalreal " + c.ser() + " " + ser + " " + serDb(rows) + " " + ast + " " + h.Hex([]byte(igText))
+			} else {
+				res.Count("sem:real-ast-unreadable")
+			}
+		}
+		realOps = append(realOps, realOp)
 		ops = append(ops, "c11eval "+c.ser()+" "+ser+" "+serDb(rows))
 		cases = append(cases, tqReplay{Query: query, Ctx: c, Db: rows})
-		feats = append(feats, scriptFeature(script))
+		if featOverride != "" {
+			feats = append(feats, featOverride)
+		} else {
+			feats = append(feats, scriptFeature(script))
+		}
 		tieOps = append(tieOps, "c11plan "+c.ser()+" "+ser)
 		tieImpl = append(tieImpl, h.Hex([]byte(texts[0])))
 		tieCases = append(tieCases, map[string]any{"query": query, "ctx": c})
@@ -201,8 +292,52 @@ func c11Sem(r *h.Rng, res *h.Result, n int, maxSel int, replay *tqReplay) error 
 			}
 		}
 	}
+	if replay == nil {
+		// more conditions in one selector than the bit set has bits: the 65th and later ones can never hold
+		var parts []string
+		for i := 0; i < 66; i++ {
+			parts = append(parts, fmt.Sprintf(".k%d = %d", i, i))
+		}
+		c := genTqCtx(r)
+		c.RndMax, c.RndI, c.Cached = 0, 0, nil
+		ts := c.From
+		date := time.Unix(0, ts).In(time.FixedZone("z", c.Zone)).Format("2006-01-02")
+		featOverride = "over-64-conditions"
+		add("{"+strings.Join(parts, " || ")+"}", c, []tqAttrRow{{Date: date, Key: "k65", Val: "65", Trace: "t0", Span: "s0", Ts: ts, Dur: 1}})
+		featOverride = ""
+	}
 	if err := res.Compare("sem-text", tieOps, tieImpl, tieCases); err != nil {
 		return err
+	}
+	// the real statement
+	var rops []string
+	var ridx []int
+	for i, o := range realOps {
+		if o != "" {
+			rops = append(rops, o)
+			ridx = append(ridx, i)
+		}
+	}
+	rans, err := h.Model(rops)
+	if err != nil {
+		return err
+	}
+	for j, a := range rans {
+		i := ridx[j]
+		c := cases[i].(tqReplay)
+		switch {
+		case strings.HasPrefix(a, "OK"):
+			res.Count("sem:real-agree")
+		case strings.HasPrefix(a, "ERR"):
+			res.Count("sem:real-model-error")
+		case strings.HasPrefix(a, "BADAST"):
+			res.Disagree("sem-ast", "c11evalreal "+c.Query, "real text", "the model renderer does not reproduce the real text from the real object tree", c)
+		default:
+			res.Count("sem:real-differ")
+			res.Violate("C11/real-sql-traces-differ/"+feats[i],
+				fmt.Sprintf("the statement the planner built for %q selects other traces than the query describes (%s)", c.Query, a),
+				map[string]any{"kind": "sem", "case": c, "answer": a})
+		}
 	}
 	ans, err := h.Model(ops)
 	if err != nil {
